@@ -89,6 +89,16 @@ CLAIMS["C10"] = dict(
     tech="CBMC code contracts on the verbatim in-class member and its fragments (loop body, head fragment); bounded whole-function stand-in; native replay on the real class",
     ref="5/C10")
 
+CLAIMS["C17"] = dict(
+    cat="other",
+    text="BOUNDED stand-in only, not a proof: for every multigraph with at most 3 nodes and 3 edges (self-loops, parallel edges, integer or unit weights) the real "
+         "floyd_warshall template equals an independent Bellman-Ford oracle, with zero diagonal, symmetry and the exact sentinel for unreachable pairs. dijkstra/johnsons "
+         "(pairing heap) could not be brought within CBMC's reach and are not covered; the layout distance matrix is not covered.",
+    note=BASE_TB + "Template instantiated at an integer type (machine arithmetic treated as mathematical); bound stated per job; evidence level 'other' with the bounded jobs "
+         "listed and obligations/discharged left at zero.",
+    tech="CBMC bounded model checking of the verbatim template slice (concrete loop bounds, unwinding complete) against a Bellman-Ford oracle; native exhaustive replay",
+    ref="5/C17")
+
 NA = {
     "C02": "Optimality of solve() is a KKT/convergence statement about an iterative active-set method over heap-allocated block trees in IEEE arithmetic; per-function facts need FP multiply/divide reasoning no installed back end finishes (DESIGN 3) and would not imply agreement with a QP oracle.",
     "C03": "'No route segment crosses an obstacle' is emergent from visibility-graph construction (std::list/std::set sweeps), A*, nudging and hyperedge improvement; only the leaf predicates are reachable and they are claimed under C16.",
@@ -103,7 +113,7 @@ NA = {
     "C19": "Decompositions over std::map-of-shared_ptr graphs and a sweep-line planariser; no function within the front end's reach carries the partition property.",
 }
 
-PENDING = {k: 'claim designed in DESIGN.md section 5 but its contract jobs are not built at this commit; not claimed yet' for k in ['C17']}  # id -> reason (claims planned in DESIGN.md whose jobs are not built yet)
+PENDING = {}  # id -> reason (claims planned in DESIGN.md whose jobs are not built yet)
 
 
 def main():
